@@ -33,6 +33,7 @@ def make(debug, cells=None):
     P.set_variable('v_s', 'txt')
     P.set_variable('v_l', [1, 2, 3])
     P.set_variable('v_e', err.NUM)
+    P.set_variable('v_data', err.DATA)
     P.set_function('ID', lambda x: x)
 
     def boom(*a):
@@ -252,6 +253,9 @@ def check_long_history(case):
 # ---------------------------------------------------------------- no mutation of host values
 
 MUT_FORMULAS = [
+    # several host lists handed to one call of a function that flattens its arguments
+    'COUNT(v_l,v_m)', 'AND(v_l,v_m)', 'OR(v_m,v_l,v_k)', 'XOR(v_n,v_l)', 'COUNTA(v_l,v_m,v_t)', 'COUNT(v_n,v_n)', 'AVERAGEIF(v_n,">0")', 'COUNTBLANK(v_l,v_m)', 'CONCATENATE(v_l,v_m)', 'TEXTJOIN("",TRUE,v_l,v_m)', 'COUNT(B2:C3,v_n)',
+    'MAX(v_l,v_m)', 'MEDIAN(v_l,v_m)', 'AVEDEV(v_n,v_l)', 'SUM(v_n,v_n)', 'AND(B2:C3,B2:C3)',
     'v_one*v_l', 'v_one+{1,2,3}', 'v_l-v_one', 'v_one/v_m', 'SUM(v_one*v_l)+SUM(v_one*{1,2})', 'v_row+v_n', 'v_row*{1,2;3,4}', 'v_one&"x"', 'v_one=v_one',
     'v_l*2', '2*v_l', 'v_l+v_m', 'v_m-1', '-1+v_m', 'v_l/2', '{v_l,1}', '{1,v_l}', '{v_l;v_m}', 'HF(v_l,,v_m)', 'HF(,v_l)', 'HF(v_l,)', 'HF(v_l;v_m;1)',
     'SUM(v_l,v_m)', 'SUM(v_n)', 'PRODUCT(v_n)', 'AVERAGE(v_n)', 'MIN(v_n)', 'MAX(v_n)', 'COUNT(v_n)', 'MEDIAN(v_n)', 'MODE(v_k)', 'VAR(v_n)', 'STDEV(v_n)', 'AVEDEV(v_n)', 'LARGE(v_n,2)', 'LARGE(v_m,1)',
@@ -313,7 +317,7 @@ def check_mutation(case):
 
 # ---------------------------------------------------------------- no retention
 
-RETAIN = ['VARBOOM(1)', '1+VARBOOM()', 'IFERROR(VARBOOM(),1)', '1+1', 'SUM(1,2,3)*4+A1', 'IF(1<2,"a","b")&"c"', '1/0', '1+', '((', 'nosuch', 'NOSUCH(1)', 'SUM(1/0)', 'SUM(v_e)', 'MAX({1,2},NA())', 'IFERROR(CONCATENATE(1/0),1)', 'IFERROR(SUM(1/0),0)',
+RETAIN = ['#GETTING_DATA', 'SUM(1,v_data)', 'IFERROR(SUM(1,v_data),0)', '#NULL!', '#NUM!', '#NAME?', '#VALUE!', '#DIV/0!', '#REF!', 'SUM(1,v_e)', 'VARBOOM(1)', '1+VARBOOM()', 'IFERROR(VARBOOM(),1)', '1+1', 'SUM(1,2,3)*4+A1', 'IF(1<2,"a","b")&"c"', '1/0', '1+', '((', 'nosuch', 'NOSUCH(1)', 'SUM(1/0)', 'SUM(v_e)', 'MAX({1,2},NA())', 'IFERROR(CONCATENATE(1/0),1)', 'IFERROR(SUM(1/0),0)',
           '#N/A', '1+#REF!', 'BOOM(1)', 'XBOOM()', 'IFERROR(XBOOM(),1)', 'Z9+1', 'INNERFAIL(1)', 'v_s+1', 'SQRT(-1)', 'MATCH("a*",{"ab","cd"},0)', 'TEXT(1234.5,"#,##0.00")', 'DATEVALUE("2019-11-20")',
           '~', 'INDEX(v_l,9)', 'LEFT(1)', 'AVERAGE({1,2},1/0)', 'PRODUCT(v_e)', 'COUNTIF({"ab","cd"},"a*")', 'ISERROR(MEDIAN(v_e))']
 
